@@ -46,9 +46,17 @@ def histories(module, consts, L, *, simulate=None, seed=None, workers=None, time
         with open(path) as f:
             d = json.load(f)
         return d["hists"], d["stats"]
+    seen_prefix = {}
+
+    def keep(line):
+        """simulation mode: at most two of the histories that differ in their last entry only (cheap test on the raw line:
+        everything up to the last record)"""
+        k = hashlib.sha1(line[:line.rfind('{\\"')].encode()).digest() if '{\\"' in line else line[:200].encode()
+        seen_prefix[k] = seen_prefix.get(k, 0) + 1
+        return seen_prefix[k] <= (2 if (simulate or 0) < 200 else 1)     # large samples: one history per behaviour (memory)
     r = tlc.run(module, consts, simulate=simulate, depth=L + 1 if simulate else None, seed=seed,
                 workers=workers, timeout=timeout, invariants=[emit] + list(extra_inv),
-                constraints=constraints, defs=defs, view=view, **(extra_cfg or {}))
+                constraints=constraints, defs=defs, view=view, emit_filter=keep if simulate else None, **(extra_cfg or {}))
     if r.violation:
         raise tlc.TlcError("generator run of %s violated %s\n%s" % (module, r.violation, r.trace[:3000]))
     hs = r.emitted
@@ -59,7 +67,7 @@ def histories(module, consts, L, *, simulate=None, seed=None, workers=None, time
         for h in hs:
             k = json.dumps(h[:-1], sort_keys=True)
             seen[k] = seen.get(k, 0) + 1
-            if seen[k] <= 2:
+            if seen[k] <= (2 if simulate < 200 else 1):
                 keep.append(h)
         hs = keep
     r.emitted = hs
